@@ -458,4 +458,428 @@ func TestVerifC02Noise(t *testing.T) {
 			}
 		}
 	}
+	// 4. re-chunked delivery (untampered): the raw byte stream writer -> reader is cut into
+	// Reads that ignore message boundaries; in particular handshake message 3 and the
+	// initiator's first transport frame(s) arrive in ONE Read of the responder's raw conn
+	t4 := time.Now()
+	defer func() { t.Logf("re-chunked delivery section: %v", time.Since(t4)) }()
+	firstWrites := [][]int{{1}, {5}, {1000}, {65519}, {65520}, {2*65519 + 10}, {1, 65520, 7}, {100, 100, 100}}
+	for _, wl := range firstWrites {
+		tot := 0
+		for _, l := range wl {
+			tot += l
+		}
+		for _, relAfterFirst := range []bool{false, true} {
+			b := bufsBig[r.Intn(len(bufsBig))]
+			if b < 100 && tot > 70000 {
+				b = 1000
+			}
+			w.runRechunk(out, wl, []int{b}, nil, nil, relAfterFirst, true)
+			out.Cover("noise.rechunk_corked")
+		}
+		w.runRechunk(out, wl, []int{70000}, nil, nil, false, false)
+	}
+	// the first released chunk ends d bytes after the end of handshake message 3
+	for _, d := range []int{-1, 0, 1, 2, 3, 18, 19} {
+		d := d
+		wl := firstWrites[r.Intn(len(firstWrites))]
+		w.runRechunk(out, wl, []int{70000, 1 + r.Intn(3000)}, c02ChunkPattern(r), &d, r.Bool(), true)
+		out.Cover("noise.rechunk_boundary_delta")
+	}
+	n4 := 24
+	if thorough {
+		n4 = 600
+	}
+	for i := 0; i < n4; i++ {
+		nw := 1 + r.Intn(3)
+		wl := make([]int, nw)
+		for j := range wl {
+			switch r.Intn(5) {
+			case 0:
+				wl[j] = 1 + r.Intn(40)
+			case 1:
+				wl[j] = 65519*(1+r.Intn(2)) + r.Intn(5) - 2
+			case 2:
+				wl[j] = 1 + r.Intn(140000)
+			default:
+				wl[j] = 1 + r.Intn(5000)
+			}
+		}
+		nb := 1 + r.Intn(3)
+		bl := make([]int, nb)
+		for j := range bl {
+			switch r.Intn(3) {
+			case 0:
+				bl[j] = bufsBig[3+r.Intn(len(bufsBig)-3)]
+			case 1:
+				bl[j] = 200 + r.Intn(3000)
+			default:
+				bl[j] = 100 + r.Intn(140000)
+			}
+		}
+		var dp *int
+		if r.Intn(3) == 0 {
+			d := r.Intn(40) - 3
+			dp = &d
+		}
+		w.runRechunk(out, wl, bl, c02ChunkPattern(r), dp, r.Bool(), r.Intn(4) != 0)
+		out.Cover("noise.rechunk_random")
+	}
+}
+
+// ---------------------------------------------------------------------------
+// re-chunked delivery
+//
+// c02Queue is one direction of an in-memory connection with an unbounded
+// buffer: Writes never block, Reads return whatever the release policy and the
+// chunk pattern allow, regardless of how the bytes were written.  The queue
+// parses the length-prefixed messages that pass through it; messages from index
+// `holdFrom` on are held back ("corked") until release() is called.  Everything
+// is driven by explicit synchronisation; the only clock is a guard that turns a
+// Read that would block forever into an error.
+
+const c02BlockGuard = 20 * time.Second
+
+type c02Queue struct {
+	mu       sync.Mutex
+	cond     *sync.Cond
+	all      []byte // everything ever written
+	parsed   int    // all[:parsed] consists of complete messages
+	msgEnds  []int  // end offsets of the complete messages
+	holdFrom int    // messages with index >= holdFrom are held until release (<0: nothing is held)
+	released bool
+	wclosed  bool // the writing side closed: EOF after the data
+	rclosed  bool // the reading side closed
+	rdoff    int  // bytes handed to the reader so far
+	pat      []int
+	pi       int
+	hsMsgs   int  // number of handshake messages in this direction
+	delta    *int // the Read that reaches the end of the handshake stops delta bytes after it
+	// observations
+	coalesced bool // one Read returned the tail of the last handshake message and transport bytes
+	spans     bool // one Read returned bytes of more than one transport frame
+}
+
+func c02NewQueue(holdFrom, hsMsgs int, pat []int, delta *int) *c02Queue {
+	q := &c02Queue{holdFrom: holdFrom, hsMsgs: hsMsgs, pat: pat, delta: delta}
+	q.cond = sync.NewCond(&q.mu)
+	return q
+}
+
+func (q *c02Queue) write(b []byte) (int, error) {
+	q.mu.Lock()
+	defer q.mu.Unlock()
+	if q.wclosed || q.rclosed {
+		return 0, io.ErrClosedPipe
+	}
+	q.all = append(q.all, b...)
+	for q.parsed+2 <= len(q.all) {
+		l := int(binary.BigEndian.Uint16(q.all[q.parsed:]))
+		if q.parsed+2+l > len(q.all) {
+			break
+		}
+		q.parsed += 2 + l
+		q.msgEnds = append(q.msgEnds, q.parsed)
+	}
+	q.cond.Broadcast()
+	return len(b), nil
+}
+
+func (q *c02Queue) releasable() int {
+	if q.holdFrom < 0 || q.released {
+		return len(q.all)
+	}
+	if q.holdFrom == 0 {
+		return 0
+	}
+	if len(q.msgEnds) >= q.holdFrom {
+		return q.msgEnds[q.holdFrom-1]
+	}
+	return q.parsed
+}
+
+func (q *c02Queue) release() {
+	q.mu.Lock()
+	q.released = true
+	q.cond.Broadcast()
+	q.mu.Unlock()
+}
+
+func (q *c02Queue) closeW() {
+	q.mu.Lock()
+	q.wclosed = true
+	q.cond.Broadcast()
+	q.mu.Unlock()
+}
+
+func (q *c02Queue) closeR() {
+	q.mu.Lock()
+	q.rclosed = true
+	q.cond.Broadcast()
+	q.mu.Unlock()
+}
+
+type c02GuardErr struct{}
+
+func (c02GuardErr) Error() string   { return "verif: raw Read blocked (bytes lost?): i/o timeout" }
+func (c02GuardErr) Timeout() bool   { return true }
+func (c02GuardErr) Temporary() bool { return true }
+
+func (q *c02Queue) read(b []byte) (int, error) {
+	q.mu.Lock()
+	defer q.mu.Unlock()
+	if len(b) == 0 {
+		return 0, nil
+	}
+	var guard *time.Timer
+	var limit time.Time
+	for {
+		if q.rclosed {
+			return 0, io.ErrClosedPipe
+		}
+		if q.releasable() > q.rdoff {
+			break
+		}
+		if q.wclosed && q.rdoff == len(q.all) {
+			return 0, io.EOF
+		}
+		if guard == nil {
+			limit = time.Now().Add(c02BlockGuard)
+			guard = time.AfterFunc(c02BlockGuard+50*time.Millisecond, func() {
+				q.mu.Lock()
+				q.cond.Broadcast()
+				q.mu.Unlock()
+			})
+			defer guard.Stop()
+		} else if !time.Now().Before(limit) {
+			return 0, c02GuardErr{}
+		}
+		q.cond.Wait()
+	}
+	n := q.releasable() - q.rdoff
+	if n > len(b) {
+		n = len(b)
+	}
+	capped := false
+	if q.delta != nil && len(q.msgEnds) >= q.hsMsgs {
+		target := q.msgEnds[q.hsMsgs-1] + *q.delta
+		if q.rdoff < target {
+			capped = true
+			if n > target-q.rdoff {
+				n = target - q.rdoff
+			}
+		}
+	}
+	if !capped && len(q.pat) > 0 {
+		k := q.pat[q.pi%len(q.pat)]
+		q.pi++
+		if k > 0 && k < n {
+			n = k
+		}
+	}
+	copy(b, q.all[q.rdoff:q.rdoff+n])
+	if len(q.msgEnds) >= q.hsMsgs {
+		hsEnd := q.msgEnds[q.hsMsgs-1]
+		if q.rdoff < hsEnd && q.rdoff+n > hsEnd {
+			q.coalesced = true
+		}
+		for _, e := range q.msgEnds {
+			if e >= hsEnd && q.rdoff >= hsEnd && q.rdoff < e && e < q.rdoff+n {
+				q.spans = true
+			}
+		}
+	}
+	q.rdoff += n
+	return n, nil
+}
+
+type c02Addr struct{}
+
+func (c02Addr) Network() string { return "verif" }
+func (c02Addr) String() string  { return "verif-queue" }
+
+// c02QConn: one end of a connection made of two queues
+type c02QConn struct{ rd, wr *c02Queue }
+
+func (c *c02QConn) Read(b []byte) (int, error)  { return c.rd.read(b) }
+func (c *c02QConn) Write(b []byte) (int, error) { return c.wr.write(b) }
+func (c *c02QConn) Close() error {
+	c.wr.closeW()
+	c.rd.closeR()
+	return nil
+}
+func (c *c02QConn) LocalAddr() net.Addr              { return c02Addr{} }
+func (c *c02QConn) RemoteAddr() net.Addr             { return c02Addr{} }
+func (c *c02QConn) SetDeadline(time.Time) error      { return nil }
+func (c *c02QConn) SetReadDeadline(time.Time) error  { return nil }
+func (c *c02QConn) SetWriteDeadline(time.Time) error { return nil }
+
+// a cyclic pattern of raw chunk sizes (0: everything that is available)
+func c02ChunkPattern(r *verifh.Rand) []int {
+	sizes := []int{0, 0, 1, 2, 3, 17, 18, 19, 100, 1000, 4095, 4096, 4097, 65537, 70000, 140000}
+	p := make([]int, 1+r.Intn(5))
+	for i := range p {
+		if r.Intn(4) == 0 {
+			p[i] = 1 + r.Intn(70000)
+		} else {
+			p[i] = sizes[r.Intn(len(sizes))]
+		}
+	}
+	return p
+}
+
+// one untampered case over re-chunked delivery.  Everything the writer sends from
+// the last handshake message of its direction on (initiator: message 3; responder:
+// its first transport frame) is held in the queue and handed to the reader's raw
+// conn only after the writer's first Write (relAfterFirst) or all its Writes and
+// its Close have returned; then in chunks given by `pat` / `delta`, by default as
+// much as the Read asks for.  With the initiator as the writer the responder thus
+// finds message 3 and the first transport frame(s) in the same raw Read.
+func (w *c02World) runRechunk(out *verifh.Out, wlens []int, blens []int, pat []int, delta *int, relAfterFirst bool, writerIsInit bool) {
+	if c02HandshakeFailures >= 5 {
+		out.Cover("noise.cases_skipped_after_handshake_failures")
+		return
+	}
+	hsMsgs := 1 // responder -> initiator: message 2
+	if writerIsInit {
+		hsMsgs = 2 // messages 1 and 3
+	}
+	// message 0 of either direction (message 1 resp. 2) is needed by the peer to go on
+	qwr := c02NewQueue(1, hsMsgs, pat, delta)  // writer -> reader
+	qrw := c02NewQueue(-1, 3-hsMsgs, nil, nil) // reader -> writer: as written
+	wraw := &c02QConn{rd: qrw, wr: qwr}
+	rraw := &c02QConn{rd: qwr, wr: qrw}
+
+	var wc, rc sec.SecureConn
+	var werr, rerr error
+	firstDone := make(chan struct{})
+	allDone := make(chan struct{})
+	readerHS := make(chan struct{})
+	go func() {
+		defer close(allDone)
+		if writerIsInit {
+			wc, werr = w.initTpt.SecureOutbound(context.Background(), wraw, w.respID)
+		} else {
+			wc, werr = w.respTpt.SecureInbound(context.Background(), wraw, "")
+		}
+		if werr != nil {
+			wraw.Close()
+			close(firstDone)
+			return
+		}
+		off := 0
+		for i, l := range wlens {
+			_, err := wc.Write(c02Stream[off : off+l])
+			if i == 0 {
+				close(firstDone)
+			}
+			if err != nil {
+				break
+			}
+			off += l
+		}
+		wc.Close()
+	}()
+	go func() {
+		defer close(readerHS)
+		if writerIsInit {
+			rc, rerr = w.respTpt.SecureInbound(context.Background(), rraw, "")
+		} else {
+			rc, rerr = w.initTpt.SecureOutbound(context.Background(), rraw, w.respID)
+		}
+	}()
+	if relAfterFirst {
+		<-firstDone
+	} else {
+		<-allDone
+	}
+	qwr.release()
+	<-readerHS
+
+	line := []int64{1, 0, int64(len(wlens))}
+	if !writerIsInit {
+		line[1] = 1
+	}
+	for _, l := range wlens {
+		line = append(line, int64(l))
+	}
+	line = append(line, ekNone, 0, 1)
+	if rerr != nil {
+		// nothing was altered: a handshake that fails here means the written bytes are never
+		// delivered.  Recorded as a case whose first Read fails.
+		wraw.Close()
+		rraw.Close()
+		<-allDone
+		c02HandshakeFailures++
+		out.Comment(fmt.Sprintf("rechunk: handshake failed: %v %v", werr, rerr))
+		out.Cover("noise.handshake_failed")
+		line = append(line, 1, int64(blens[0]), 2, 0, 1)
+		out.Case(line)
+		return
+	}
+	var reads []int64
+	delivered, errs := 0, 0
+	maxbuf := 0
+	for _, b := range blens {
+		if b > maxbuf {
+			maxbuf = b
+		}
+	}
+	buf := make([]byte, maxbuf)
+	for i := 0; i < 400000; i++ {
+		bl := blens[i%len(blens)]
+		n, err := rc.Read(buf[:bl])
+		res, ok := int64(0), int64(1)
+		if n > 0 {
+			if delivered+n > len(c02Stream) || !bytes.Equal(buf[:n], c02Stream[delivered:delivered+n]) {
+				ok = 0
+			}
+			delivered += n
+		}
+		if err != nil {
+			res = 2
+			if errors.Is(err, io.EOF) {
+				res = 1
+			}
+			if n > 0 {
+				reads = append(reads, int64(bl), 0, int64(n), ok)
+				n, ok = 0, 1
+			}
+		}
+		reads = append(reads, int64(bl), res, int64(n), ok)
+		if res != 0 {
+			if res == 2 {
+				errs++
+				out.Comment(fmt.Sprintf("rechunk: read %d failed after %d bytes: %v", i, delivered, err))
+			}
+			break
+		}
+	}
+	rc.Close()
+	wraw.Close()
+	rraw.Close()
+	<-allDone
+	line = append(line, int64(len(reads)/4))
+	line = append(line, reads...)
+	out.Case(line)
+	out.Cover("noise.rechunked_sessions")
+	qwr.mu.Lock()
+	coalesced, spans := qwr.coalesced, qwr.spans
+	qwr.mu.Unlock()
+	if coalesced && writerIsInit {
+		out.Cover("noise.coalesced_msg3_with_first_frame")
+	}
+	if spans {
+		out.Cover("noise.rechunk_read_spans_frames")
+	}
+	total := 0
+	for _, l := range wlens {
+		total += l
+	}
+	if delivered == total {
+		out.Cover("noise.delivered_everything")
+	}
+	if errs > 0 {
+		out.Cover("noise.reader_saw_error")
+	}
 }
